@@ -444,12 +444,14 @@ def check_handrolled_memo(ctx, rule):
         sites = memo_sites(f.node)
         if not sites:
             continue
-        it = ctx.entry(q) if f.parent is None else None
+        if f.parent is not None:
+            continue  # a table owned by the enclosing call: it does not outlive that call
+        it = ctx.entry(q)
         for ifn, k, t, v in sites:
+            tv = it.value_of(t)
+            if tv is not None and tv.ty == 'dict' and tv.fresh and tv.store is None and tv.instance_dict_of is None and not tv.persistent:
+                continue  # a dictionary created inside this call (an accumulator), not a memo that survives the call
             n_sites += 1
-            if it is None:
-                ctx.ob(rule, f, ifn, None, 'memo table inside a nested function: key dependencies not derived')
-                continue
             kv, vv = it.value_of(k), it.value_of(v)
             kd = set(kv.deps or ()) if kv is not None else set()
             vd = set(vv.deps or ()) if vv is not None else set()
